@@ -1,5 +1,388 @@
-"""C14 (ILP half): exhaustive tiny reference planner (filled in later)."""
+"""C14 (ILP half): exhaustive tiny reference planner for the ILP policy with the goodput goal.
+
+The reference is an independent transcription of the ILP's *own* decision space (what
+schedulers/ilp_scheduler.py publishes as its constraints), searched by a serial schedule-generation
+scheme over every precedence-compatible order and every (worker, strategy) assignment:
+
+  * a task that is not running starts at an integer time >= max(now + 1, release);
+  * with enforcement a *placed* task has start + chosen runtime <= deadline (a task that is left
+    unplaced constrains nothing: since fix fd94428 the deadline row is an indicator
+    constraint on "is placed"; before it, one hopeless task made the whole model infeasible);
+  * a SCHEDULED task must stay placed when schedules are not retracted (it may move);
+  * a RUNNING task occupies its worker from `now` for the full runtime of its strategy;
+  * a child starts >= parent start + (runtime + 1 if the parent is placed); a task is placed only if
+    every predecessor that is in the model is placed;
+  * two tasks that are not ancestor/descendant overlap unless one starts at least 1us after the other
+    ends; for every task t, worker w and resource type: demand(t on w) + sum of the demands of the tasks
+    on w that overlap t <= total(w)   (the ILP's pairwise formulation);
+  * a task graph is rewarded iff every in-model task of the graph is placed.
+
+Every plan the search finds satisfies all of these, i.e. is a feasible point of the ILP's model with a
+reward of (ILP's reward + 1): the solver, whose stopping rule is a 10 % relative gap on an objective of
+at most 4, cannot legitimately stop below it.  The search is not complete (an active-schedule scheme
+under the pairwise overlap rule), which only costs sensitivity.  The ILP's own plan is also evaluated
+under the transcription; if it falls outside (`c14_ilp_plan_outside_reference_model`) the instance is
+skipped, never reported.
+
+A second, *physical* reference (half-open intervals, start >= now, capacity per instant) is evaluated as
+a measurement only (`c14_ilp_physical_optimum_higher`): the ILP's conventions are deliberately
+conservative and the property is decided against the planner's own decision space (DESIGN.md section 4)."""
+import itertools
+
+from .monitor import _us, demand_of
+
+MAX_TASKS = 5
+BUDGET = 60000
+
+
+class _T:
+    __slots__ = ("task", "name", "graph", "lb", "deadline", "opts", "forced", "parents", "anc", "running",
+                 "fixed")
+
+    def __init__(self):
+        self.parents = []
+        self.anc = set()
+        self.running = False
+        self.fixed = None
+
+
+def _instance(ctx, sched, now, task_pl, offered):
+    pol = ctx.world["policy"]
+    retract = bool(pol.get("retract"))
+    enforce = bool(pol.get("enforce_deadlines"))
+    workers = []
+    for pool in ctx.built.worker_pools.worker_pools:
+        for w in pool.workers:
+            workers.append(w)
+    totals = {}
+    for w in workers:
+        led = ctx.ledgers.get(id(w))
+        if led is None or led.used_specific():
+            return None
+        totals[id(w)] = dict(led.total_by_type)
+    inmodel = {}
+    for tid, t in offered.items():
+        inmodel[tid] = t
+    for t in ctx.all_live_tasks():
+        st = t.state.name
+        if st == "RUNNING" or (st == "SCHEDULED" and not retract):
+            inmodel[id(t)] = t
+    items = {}
+    for tid, t in inmodel.items():
+        x = _T()
+        x.task = t
+        x.name = t.unique_name
+        x.graph = t.task_graph
+        st = t.state.name
+        x.deadline = _us(t.deadline) if enforce else None
+        if st == "RUNNING":
+            cp = t.current_placement
+            led = None
+            for w in workers:
+                l_ = ctx.ledgers[id(w)]
+                if tid in l_.residents:
+                    led = l_
+            if led is None or cp is None or cp.execution_strategy is None:
+                return None
+            strat = led.residents[tid][1]
+            if id(strat) in led.batches:
+                return None
+            x.running = True
+            x.fixed = (id(led.worker), now, _us(strat.runtime), demand_of(strat))
+            x.lb = now
+            x.opts = []
+            x.forced = True
+        else:
+            rel = _us(t.release_time)
+            x.lb = max(now + 1, rel if rel is not None else 0)
+            x.opts = []
+            for w in workers:
+                for s in t.available_execution_strategies:
+                    dem = demand_of(s)
+                    if any(rid != "any" for _, rid, _ in dem):
+                        return None
+                    need = {}
+                    for n, _, q in dem:
+                        need[n] = need.get(n, 0) + q
+                    if all(totals[id(w)].get(n, 0) >= q for n, q in need.items()):
+                        x.opts.append((id(w), _us(s.runtime), dem, s))
+            x.forced = st == "SCHEDULED" and not retract
+        items[tid] = x
+    # parents / ancestors restricted to the model (spec graph)
+    for tid, x in items.items():
+        s = ctx.shadow(x.task)
+        for pname, ps in ctx.parent_shadows(s):
+            if ps is not None and id(ps.task) in items:
+                x.parents.append(id(ps.task))
+    # full ancestor relation through the spec (also through tasks outside the model)
+    for tid, x in items.items():
+        s = ctx.shadow(x.task)
+        seen = set()
+        stack = [s]
+        while stack:
+            cur = stack.pop()
+            for pname, ps in ctx.parent_shadows(cur):
+                if ps is not None and id(ps.task) not in seen:
+                    seen.add(id(ps.task))
+                    stack.append(ps)
+        x.anc = {a for a in seen if a in items}
+    return {"items": items, "workers": workers, "totals": totals, "enforce": enforce, "now": now}
+
+
+def _dependent(items, a, b):
+    return a in items[b].anc or b in items[a].anc
+
+
+def _overlap(s1, r1, s2, r2):
+    """ILP convention: no overlap iff one starts at least 1us after the other ends"""
+    return not (s1 >= s2 + r2 + 1 or s1 + r1 <= s2 - 1)
+
+
+def _feasible_relaxed(inst, plan):
+    """the same decision space without the start-time variable of tasks that are left unplaced"""
+    return _feasible_model(inst, plan, relaxed=True)
+
+
+def _feasible_model(inst, plan, relaxed=True):
+    """plan: tid -> (worker id or None, start, runtime, demand); every in-model task present"""
+    items = inst["items"]
+    for tid, x in items.items():
+        w, s, r, dem = plan[tid]
+        if not x.running:
+            if s < x.lb:
+                return False
+            if x.deadline is not None and s + (r if w is not None else 0) > x.deadline and \
+                    not (relaxed and w is None):
+                return False
+            if x.forced and w is None:
+                return False
+        for p in x.parents:
+            pw, ps_, pr, _ = plan[p]
+            if not x.running:
+                if s < ps_ + ((pr + 1) if pw is not None else 0):
+                    return False
+                if w is not None and pw is None:
+                    return False
+    ids = list(items)
+    for t1 in ids:
+        w1, s1, r1, d1 = plan[t1]
+        r1e = r1 if w1 is not None else 0
+        for w in inst["workers"]:
+            wid = id(w)
+            if items[t1].running and w1 != wid:
+                continue
+            use = {}
+            if w1 == wid:
+                for n, _, q in d1:
+                    use[n] = use.get(n, 0) + q
+            for t2 in ids:
+                if t2 == t1:
+                    continue
+                w2, s2, r2, d2 = plan[t2]
+                if w2 != wid:
+                    continue
+                if _dependent(items, t1, t2):
+                    continue
+                if _overlap(s1, r1e, s2, r2):
+                    for n, _, q in d2:
+                        use[n] = use.get(n, 0) + q
+            for n, u in use.items():
+                if u > inst["totals"][wid].get(n, 0):
+                    return False
+    return True
+
+
+def _feasible_physical(inst, plan):
+    items = inst["items"]
+    now = inst["now"]
+    for tid, x in items.items():
+        w, s, r, dem = plan[tid]
+        if w is None:
+            if x.forced:
+                return False
+            continue
+        if not x.running:
+            if s < max(now, x.lb - 1 if x.lb == now + 1 else x.lb):
+                return False
+            if x.deadline is not None and s + r > x.deadline:
+                return False
+        for p in x.parents:
+            pw, ps_, pr, _ = plan[p]
+            if pw is None or s < ps_ + pr:
+                return False
+    pts = sorted({plan[t][1] for t in items if plan[t][0] is not None})
+    for w in inst["workers"]:
+        wid = id(w)
+        for pt in pts:
+            use = {}
+            for t in items:
+                tw, s, r, dem = plan[t]
+                if tw == wid and s <= pt < s + r:
+                    for n, _, q in dem:
+                        use[n] = use.get(n, 0) + q
+            for n, u in use.items():
+                if u > inst["totals"][wid].get(n, 0):
+                    return False
+    return True
+
+
+def _sgs(inst, want, feasible, budget, physical=False):
+    """serial schedule generation: is there a plan that places exactly `want` (plus forced/running
+    tasks) and satisfies `feasible`?  returns (True/False/None when the budget ran out, plan)"""
+    items = inst["items"]
+    free = [tid for tid, x in items.items() if not x.running]
+    place = [tid for tid in free if tid in want or items[tid].forced]
+    for tid in place:
+        if not items[tid].opts:
+            return False, None
+    base = {tid: (x.fixed[0], x.fixed[1], x.fixed[2], x.fixed[3]) for tid, x in items.items() if x.running}
+    horizon_end = max([x.deadline for x in items.values() if x.deadline is not None] + [inst["now"] + 40])
+    count = [0]
+    orders = [o for o in itertools.permutations(free)
+              if all(o.index(p) < o.index(t) for t in free for p in items[t].parents if p in free)]
+    for order in orders:
+        for assign in itertools.product(*[items[t].opts for t in place]):
+            count[0] += 1
+            if count[0] > budget:
+                return None, None
+            amap = dict(zip(place, assign))
+            plan = dict(base)
+            ok = True
+            for t in order:
+                x = items[t]
+                lb = x.lb if not physical else (inst["now"] if x.lb == inst["now"] + 1 else x.lb)
+                for p in x.parents:
+                    pw, ps_, pr, _ = plan[p]
+                    if physical:
+                        lb = max(lb, ps_ + (pr if pw is not None else 0))
+                    else:
+                        lb = max(lb, ps_ + ((pr + 1) if pw is not None else 0))
+                if t not in amap:
+                    plan[t] = (None, lb, 0, ())
+                    if x.deadline is not None and lb > x.deadline and not physical and \
+                            feasible is not _feasible_relaxed:
+                        ok = False
+                        break
+                    continue
+                wid, rt, dem, _s = amap[t]
+                placed = False
+                hi = (x.deadline - rt) if x.deadline is not None else horizon_end
+                s = lb
+                while s <= hi:
+                    plan[t] = (wid, s, rt, dem)
+                    partial = {k: v for k, v in plan.items()}
+                    # tasks not yet sequenced do not constrain the partial plan
+                    sub = {"items": {k: items[k] for k in partial}, "workers": inst["workers"],
+                           "totals": inst["totals"], "now": inst["now"]}
+                    if _partial_ok(sub, partial, feasible):
+                        placed = True
+                        break
+                    s += 1
+                if not placed:
+                    ok = False
+                    break
+            if ok and len(plan) == len(items) and feasible(inst, plan):
+                return True, plan
+    return False, None
+
+
+def _partial_ok(sub, partial, feasible):
+    # parents outside the partial plan cannot occur (orders are precedence compatible)
+    try:
+        return feasible(sub, partial)
+    except KeyError:
+        return True
 
 
 def check_c14_ilp(ctx, sched, now, task_pl, offered):
-    return
+    pol = ctx.world["policy"]
+    if pol.get("goal", "max_goodput") != "max_goodput" or pol.get("release_taskgraphs") or pol.get("batching"):
+        return
+    if ctx.world.get("faults", {}).get("clock", "jitter") == "jump":
+        return  # a jumping wall clock can trip the solver's gap-time limit: not the planner's fault
+    if not offered or len(offered) > 4:
+        return
+    inst = _instance(ctx, sched, now, task_pl, offered)
+    if inst is None:
+        ctx.probe("c14_ilp_instance_not_modelled")
+        return
+    items = inst["items"]
+    free = [tid for tid, x in items.items() if not x.running]
+    if len(free) > MAX_TASKS or len(inst["workers"]) > 2:
+        return
+    dec = {id(p.task): p for p in task_pl if p.placement_type.name == "PLACE_TASK"}
+    if any(tid not in dec for tid in free):
+        return  # a cancel decision or an unanswered task: C10's / C12's business
+    # the ILP's own plan under the transcription
+    plan = {tid: x.fixed for tid, x in items.items() if x.running}
+    wid_of = {w.id: id(w) for w in inst["workers"]}
+    # unplaced tasks: earliest start (their variable is free)
+    order = sorted(free, key=lambda t: len(items[t].anc))
+    for t in order:
+        p = dec[t]
+        x = items[t]
+        if p.is_placed() and p.execution_strategy is not None and p.worker_id in wid_of:
+            plan[t] = (wid_of[p.worker_id], _us(p.placement_time), _us(p.execution_strategy.runtime),
+                       demand_of(p.execution_strategy))
+        elif p.is_placed():
+            return
+        else:
+            lb = x.lb
+            for q in x.parents:
+                if q in plan:
+                    pw, ps_, pr, _ = plan[q]
+                    lb = max(lb, ps_ + ((pr + 1) if pw is not None else 0))
+            plan[t] = (None, lb, 0, ())
+    graphs = sorted({items[t].graph for t in free})
+    if len(graphs) > 4:
+        return
+    achieved = {g for g in graphs if all(plan[t][0] is not None for t in free if items[t].graph == g)}
+    ctx.probe("c14_ilp_goodput_checked")
+    feasible = _feasible_relaxed
+    empty = not any(plan[t][0] is not None for t in free)
+    model_infeasible = empty and not _feasible_model(inst, plan, relaxed=False)
+    if model_infeasible:
+        # with the deadline row of an unplaced task still in the model ("start >= now + 1" against
+        # "start <= deadline" for a task whose deadline has passed) there is no feasible point at all
+        ctx.probe("c14_ilp_hopeless_task_and_empty_plan")
+    if not _feasible_relaxed(inst, plan):
+        ctx.probe("c14_ilp_plan_outside_reference_model")
+        return
+    if len(achieved) == len(graphs):
+        ctx.probe("c14_ilp_all_graphs_rewarded")
+        return
+    # can one more graph be rewarded?
+    cut = False
+    for extra in itertools.combinations(graphs, len(achieved) + 1):
+        want = {t for t in free if items[t].graph in extra}
+        ok, better = _sgs(inst, want, feasible, BUDGET)
+        if ok is None:
+            cut = True
+            continue
+        if ok:
+            names = sorted(items[t].name for t in want)
+            desc = {items[t].name: (better[t][1], better[t][2]) if better[t][0] is not None else None for t in free}
+            empty = not any(plan[t][0] is not None for t in free)
+            ctx.violate(
+                "C14", "ilp_goodput_not_optimal",
+                f"ILP at t={now}: the returned plan rewards {len(achieved)} of {len(graphs)} task graphs "
+                f"({sorted(achieved)}), but placing {names} is feasible in the ILP's own decision space "
+                f"(start, runtime per task: {desc})",
+                {"policy": "ILP", "achieved": len(achieved), "possible_at_least": len(extra),
+                 "empty_plan": empty, "model_infeasible": model_infeasible, "retract": bool(pol.get("retract")),
+                 "forced_scheduled_tasks": any(items[t].forced for t in free),
+                 "running_tasks": any(x.running for x in items.values()),
+                 "hopeless_task_in_model": any(x.deadline is not None and not x.running and (
+                     not x.opts or x.lb + min(o[1] for o in x.opts) > x.deadline) for x in items.values())})
+            return
+    if cut:
+        ctx.probe("c14_ilp_search_cut")
+        return
+    ctx.probe("c14_ilp_goodput_confirmed_optimal")
+    # measurement only: the physical optimum
+    for extra in itertools.combinations(graphs, len(achieved) + 1):
+        want = {t for t in free if items[t].graph in extra}
+        ok, _ = _sgs(inst, want, _feasible_physical, BUDGET // 4, physical=True)
+        if ok:
+            ctx.probe("c14_ilp_physical_optimum_higher")
+            break
